@@ -190,6 +190,21 @@ func (t *Tracer) Receive(writer *Writer, pck *Packet) {
 	t.resolve(write)
 }
 
+// Drop answers every packet still awaiting a response from the writer with a dropped packet error.
+// Call it once the writer's Receive channel is closed: the closed channel stands for those responses.
+func (t *Tracer) Drop(writer *Writer) {
+	t.mu.Lock()
+	defer t.mu.Unlock()
+
+	writes := t.writes[writer]
+	delete(t.writes, writer)
+
+	for _, write := range writes {
+		t.receive(write, New(ErrDroppedPacket))
+		t.resolve(write)
+	}
+}
+
 // Close releases resources and signals readers with an error before shutting down.
 func (t *Tracer) Close() {
 	t.mu.Lock()
